@@ -640,3 +640,90 @@ pub fn esc_sweep_block(h: usize, first: usize, last: usize, surr: bool) -> (Valu
         json!({"h": h, "kind": "escsweep", "first": first, "last": last, "surr": surr}),
     )
 }
+
+
+// ------------------------------------------------------------------------------------------
+// C07 on large inputs: one fresh process per scenario (default main-thread stack), with a time
+// limit. A panic or an abort (stack overflow) is a violation; running out of time is inconclusive.
+// ------------------------------------------------------------------------------------------
+pub fn run_large(h: usize, what: &str, list: &[String], cfg: &Cfg, self_exe: &str, tmp: &str, limit_s: u64) -> (Value, Value) {
+    let plan = json!({"list": list, "cfg": cfg.to_json()});
+    let path = format!("{}/large_plan_{}.json", tmp, h);
+    std::fs::write(&path, plan.to_string()).unwrap();
+    let start = std::time::Instant::now();
+    let mut child = std::process::Command::new(self_exe)
+        .args(["build-one", &path])
+        .stdout(std::process::Stdio::piped())
+        .stderr(std::process::Stdio::null())
+        .spawn()
+        .expect("spawn self");
+    // read stdout on a thread so that a large output cannot block the child
+    let mut so = child.stdout.take().unwrap();
+    let reader = std::thread::spawn(move || {
+        let mut buf = Vec::new();
+        let _ = std::io::Read::read_to_end(&mut so, &mut buf);
+        buf
+    });
+    let mut outcome = "timeout";
+    let mut code: i64 = -1;
+    loop {
+        match child.try_wait() {
+            Ok(Some(st)) => {
+                code = st.code().map(|c| c as i64).unwrap_or(-2);
+                outcome = if st.success() { "ok" } else { "abort" };
+                break;
+            }
+            Ok(None) => {
+                if start.elapsed().as_secs() > limit_s {
+                    let _ = child.kill();
+                    let _ = child.wait();
+                    break;
+                }
+                std::thread::sleep(std::time::Duration::from_millis(20));
+            }
+            Err(_) => break,
+        }
+    }
+    let out = String::from_utf8_lossy(&reader.join().unwrap_or_default()).to_string();
+    let _ = std::fs::remove_file(&path);
+    if outcome == "ok" && out.starts_with("PANIC ") {
+        outcome = "panic";
+    }
+    let engine = !cfg.color && !cfg.surr;
+    let valid = outcome == "ok" && engine && crate::parse::parse_hir(&out).is_ok();
+    (
+        json!({"ev": "large", "h": h, "outcome": outcome, "engine": engine, "valid": valid, "ntcs": list.len(),
+               "chars": list.iter().map(|s| s.chars().count()).max().unwrap_or(0), "ms": start.elapsed().as_millis() as u64}),
+        json!({"h": h, "kind": "large", "what": what, "cfg": cfg.to_json(), "exit": code, "outcome": outcome,
+               "ntcs": list.len(), "first": list.first().map(|s| s.chars().take(40).collect::<String>()),
+               "out_prefix": out.chars().take(120).collect::<String>()}),
+    )
+}
+
+pub fn large_scenarios(rng: &mut StdRng, thorough: bool) -> Vec<(String, Vec<String>, Cfg)> {
+    let mut v = vec![];
+    let base = Cfg::default();
+    let n_many = if thorough { 2000 } else { 800 };
+    // many short test cases
+    let words: Vec<String> = (0..n_many).map(|i| format!("{}{}", ["ab", "cd", "x", "qq"][i % 4], i * 7919 % 10007)).collect();
+    v.push(("many short test cases".to_string(), words.clone(), base.clone()));
+    v.push(("many short test cases, digits + repetitions".to_string(), words.clone(), base.with("digit", true).with("rep", true)));
+    v.push(("many short test cases, no anchors".to_string(), words.iter().take(n_many / 4).cloned().collect(), base.with("nostart", true).with("noend", true)));
+    // one very long test case
+    let long_len = if thorough { 5000 } else { 2000 };
+    let long: String = (0..long_len).map(|i| ["a", "b", "\u{e9}", "1", " ", "("][(i * 31 + i / 7) % 6]).collect();
+    v.push(("one long test case".to_string(), vec![long.clone()], base.clone()));
+    v.push(("one long test case, escaped + verbose".to_string(), vec![long.clone()], base.with("escape", true).with("verbose", true)));
+    let rep_len = if thorough { 300 } else { 150 };
+    let long_rep: String = (0..rep_len).map(|i| ["ab", "ab", "c", "ddd"][(i / 3) % 4]).collect();
+    v.push(("long test case with repetition conversion".to_string(), vec![long_rep.clone()], base.with("rep", true)));
+    v.push(("long unary test case with repetition conversion".to_string(), vec!["a".repeat(rep_len * 2)], base.with("rep", true)));
+    if thorough {
+        for k in 0..6 {
+            let c = Cfg::from_bits(rng.gen::<u32>() & 0x7FFF);
+            let l: Vec<String> = words.iter().skip(k * 50).take(300).cloned().collect();
+            v.push((format!("300 test cases, random settings #{}", k), l, c));
+        }
+    }
+    v
+}
